@@ -138,6 +138,28 @@ Definition display_step (clamped : bool) (fstep fsize : Z) : Z :=
     if (fsize <? s)%Z then fsize else s
   else fstep.
 
+(* ---- the session around the bar (filter.go): the terminal width the client was told
+   last (filter.options.TerminalColumns) and the progress bar of the running transfer
+   (filter.progress).  A session sees resizes at any moment, transfers one after the other,
+   the callbacks of the running transfer, and the stop prompt. ---- *)
+Inductive tick :=
+| TkNum (n : Z)
+| TkName (s : str)
+| TkSize (z : Z)
+| TkStep (z : Z) (now : Z) (total speed eta : str)
+| TkDone (now : Z) (total speed eta : str)
+| TkPre (z : Z)
+| TkPause (b : bool).
+
+Inductive sevent :=
+| SeResize (c : Z)                    (* TrzszFilter.SetTerminalColumns(c) *)
+| SeStart (quiet : bool) (pane : Z)   (* createProgressBar(config.Quiet, config.TmuxPaneColumns) *)
+| SeTick (t : tick)                   (* a callback of the running transfer on filter.progress.Load() *)
+| SePromptOpen                        (* confirmStopTransfer: progress.setPause(true) *)
+| SePromptClose                       (* its deferred progress.setTerminalColumns(options.TerminalColumns); setPause(false) *)
+| SeEnd.                              (* resetProgressBar *)
+
+
 Section Progress.
 Variable w : rune -> nat.
 Variable sw : str -> nat.
@@ -343,6 +365,79 @@ Definition wr_bytes (x : wr) : option str :=
   | WPanic => None
   end.
 
+(* ---- the session state machine ---- *)
+Record session := { s_cols : Z; s_bar : option pstate }.
+
+Definition sess_init (cols : Z) : session := {| s_cols := cols; s_bar := None |}.
+
+(* what reaches the terminal: a write of the bar, or showCursor at the end of a transfer *)
+Inductive swr := SwBar (x : wr) | SwShow.
+
+Definition tick_op (t : tick) : op :=
+  match t with
+  | TkNum n => OpNum n
+  | TkName s => OpName s
+  | TkSize z => OpSize z
+  | TkStep z now t s e => OpStep z now t s e
+  | TkDone now t s e => OpDone now t s e
+  | TkPre z => OpPre z
+  | TkPause b => OpPause b
+  end.
+
+(* a method call on filter.progress.Load(): nothing happens without a bar (nil receiver) *)
+Definition sess_on_bar (clamped : bool) (s : session) (o : op) : session * list swr :=
+  match s_bar s with
+  | None => (s, [])
+  | Some b =>
+    let '(b', out) := apply_op clamped o b in
+    ({| s_cols := s_cols s; s_bar := Some b' |}, map SwBar out)
+  end.
+
+Definition sess_step (clamped : bool) (e : sevent) (s : session) : session * list swr :=
+  match e with
+  | SeResize c =>
+    (* SetTerminalColumns: the session value first, then the live bar *)
+    sess_on_bar clamped {| s_cols := c; s_bar := s_bar s |} (OpCols c)
+  | SeStart quiet pane =>
+    if quiet then ({| s_cols := s_cols s; s_bar := None |}, [])
+    else
+      (* a pane can't be wider than the terminal showing it *)
+      let pane' := if s_cols s <? pane then Consts.progress_pane_ignored else pane in
+      ({| s_cols := s_cols s; s_bar := Some (new_bar (s_cols s) pane') |}, [])
+  | SeTick t => sess_on_bar clamped s (tick_op t)
+  | SePromptOpen => sess_on_bar clamped s (OpPause true)
+  | SePromptClose =>
+    let '(s1, o1) := sess_on_bar clamped s (OpCols (s_cols s)) in
+    let '(s2, o2) := sess_on_bar clamped s1 (OpPause false) in
+    (s2, o1 ++ o2)
+  | SeEnd =>
+    ({| s_cols := s_cols s; s_bar := None |},
+     match s_bar s with Some _ => [SwShow] | None => [] end)
+  end.
+
+Fixpoint sess_run (clamped : bool) (evs : list sevent) (s : session) : session * list (list swr) :=
+  match evs with
+  | [] => (s, [])
+  | e :: r =>
+    let '(s1, out) := sess_step clamped e s in
+    let '(s2, outs) := sess_run clamped r s1 in
+    (s2, out :: outs)
+  end.
+
+(* the width in force after each event: the most recent resize (a function of the history
+   alone, not of the model's state) *)
+Fixpoint sess_widths (evs : list sevent) (cur : Z) : list Z :=
+  match evs with
+  | [] => []
+  | e :: r => let cur' := match e with SeResize c => c | _ => cur end in cur' :: sess_widths r cur'
+  end.
+
+Definition swr_bytes (x : swr) : option str :=
+  match x with
+  | SwBar y => wr_bytes y
+  | SwShow => Some Consts.progress_show_cursor
+  end.
+
 End Progress.
 
 (* the code as it is in the tree (clamped or not, as generated), and the code before the fix *)
@@ -351,3 +446,5 @@ Definition progress_bar_unfixed := progress_bar_gen mdr_exact false.
 Definition progress_text := fun w sw mdr => progress_text_gen w sw mdr Consts.progress_clamped.
 Definition run_cur := fun w sw mdr => run w sw mdr Consts.progress_clamped.
 Definition pct_text_cur := fun mdr => pct_text mdr Consts.progress_clamped.
+Definition sess_step_cur := fun w sw mdr => sess_step w sw mdr Consts.progress_clamped.
+Definition sess_run_cur := fun w sw mdr => sess_run w sw mdr Consts.progress_clamped.
